@@ -1,6 +1,7 @@
 package model
 
 import (
+	"encoding/json"
 	"fmt"
 	"html"
 	"sort"
@@ -14,8 +15,8 @@ type Atom struct {
 	Attrs [][2]string // start: attributes in order (decoded values)
 	Data  string      // word text (decoded) / comment data / doctype
 	// gap before this atom
-	GapWS  bool // some source whitespace lay on the path since the previous atom
-	GapReq bool // the previous atom and this one are sibling inline items separated by source whitespace
+	GapWS  bool   // some source whitespace lay on the path since the previous atom
+	GapReq bool   // the previous atom and this one are sibling inline items separated by source whitespace
 	Blame  string // description of the model nodes on either side (for witness keys)
 }
 
@@ -47,10 +48,10 @@ type emitter struct {
 	// since. If the next atom is the first atom of another inline item the
 	// separation is required (templ passes the "next node" through if / for /
 	// switch bodies for exactly this purpose).
-	carry bool
-	left    string // blame: what produced the previous atom
-	cur     string // blame: node currently rendering
-	bounds  []string
+	carry  bool
+	left   string // blame: what produced the previous atom
+	cur    string // blame: node currently rendering
+	bounds []string
 }
 
 func (e *emitter) ws(why string) {
@@ -111,7 +112,7 @@ func (p *Program) Interpret(a *Args) Result {
 	var trace []int
 	env := &Env{A: a, Vars: map[string]string{}, Ints: map[string]int{}, Trace: &trace}
 	e := &emitter{left: "start", cur: "start"}
-	in := &interp{e: e}
+	in := &interp{e: e, p: p}
 	in.list(p.Comps[0].Body, env, "template", p.Comps[0].End, false)
 	if p.Comps[0].End != SepNone {
 		e.ws("template-end")
@@ -121,6 +122,9 @@ func (p *Program) Interpret(a *Args) Result {
 
 type interp struct {
 	e *emitter
+	p *Program
+	// per-render registries: script functions and css rules are emitted once
+	scriptDone, cssDone bool
 	// children slot of the component currently rendering: a closure rendering
 	// the caller's block in the caller's environment (nil: no block)
 	slot []func()
@@ -232,9 +236,15 @@ func (in *interp) attrs(as []*Attr, env *Env, out *[][2]string) {
 					}
 				}
 			}
+		case AOnEvent:
+			*out = append(*out, [2]string{a.Name, ScriptCallText(in.p.Script, a.X.Value(env))})
 		case AClass:
 			var names []string
 			for _, p := range a.Parts {
+				if p.CSS != nil {
+					names = append(names, p.CSS.Name+"_HASH")
+					continue
+				}
 				if p.Cond == nil || p.Cond.Value(env) {
 					names = append(names, p.Lit)
 				}
@@ -264,6 +274,18 @@ func (in *interp) node(n *Node, env *Env, parent string) {
 	case KElem:
 		var as [][2]string
 		in.attrs(n.Attrs, env, &as)
+		// css rules and script functions used by the element's attributes are
+		// emitted in front of it, once per render (styles first)
+		if in.usesCSS(n.Attrs, env) && !in.cssDone {
+			in.cssDone = true
+			in.emitCSS()
+			e.cur = describe(n, parent)
+		}
+		if in.usesScript(n.Attrs, env) && !in.scriptDone {
+			in.scriptDone = true
+			in.emitScriptDef()
+			e.cur = describe(n, parent)
+		}
 		e.atom(Atom{Kind: "start", Name: n.Name, Attrs: as})
 		if isVoid(n.Name) {
 			return
@@ -360,6 +382,15 @@ func (in *interp) node(n *Node, env *Env, parent string) {
 			e.ws("template-end")
 		}
 		in.slot = outer
+	case KScriptCall:
+		arg := n.ArgS.Value(env)
+		if !in.scriptDone {
+			in.scriptDone = true
+			in.emitScriptDef()
+		}
+		e.atom(Atom{Kind: "start", Name: "script"})
+		e.words(ScriptCallText(in.p.Script, arg), true)
+		e.atom(Atom{Kind: "end", Name: "script"})
 	case KSlot:
 		if len(in.slot) > 0 {
 			if b := in.slot[len(in.slot)-1]; b != nil {
@@ -382,4 +413,67 @@ func (in *interp) node(n *Node, env *Env, parent string) {
 		e.cur = describe(n, parent)
 		e.atom(Atom{Kind: "end", Name: n.Name})
 	}
+}
+
+// ScriptCallText is the JavaScript call templ emits for a script template
+// invoked with one string argument (function name hash normalised to HASH).
+func ScriptCallText(st *ScriptTemplate, arg string) string {
+	b, _ := json.Marshal(arg)
+	return "__templ_" + st.Name + "_HASH(" + string(b) + ")"
+}
+
+func (in *interp) emitScriptDef() {
+	e := in.e
+	e.atom(Atom{Kind: "start", Name: "script"})
+	e.words("function __templ_"+in.p.Script.Name+"_HASH(x){"+in.p.Script.Body+"\n}", true)
+	e.atom(Atom{Kind: "end", Name: "script"})
+}
+
+func (in *interp) emitCSS() {
+	e := in.e
+	e.atom(Atom{Kind: "start", Name: "style", Attrs: [][2]string{{"type", "text/css"}}})
+	var sb strings.Builder
+	sb.WriteString("." + in.p.CSS.Name + "_HASH{")
+	for _, kv := range in.p.CSS.Props {
+		sb.WriteString(kv[0] + ":" + kv[1] + ";")
+	}
+	sb.WriteString("}")
+	e.words(sb.String(), true)
+	e.atom(Atom{Kind: "end", Name: "style"})
+}
+
+// usesCSS / usesScript: the generator hoists class and on* expressions of ALL
+// attributes of the element, including those inside conditional attributes
+// whatever their condition (a listed known finding for evaluation; for the
+// emitted rule/function it only matters that it appears before first use).
+func (in *interp) usesCSS(as []*Attr, env *Env) bool {
+	for _, a := range as {
+		switch a.Kind {
+		case AClass:
+			for _, p := range a.Parts {
+				if p.CSS != nil {
+					return true
+				}
+			}
+		case ACond:
+			if in.usesCSS(a.Then, env) || in.usesCSS(a.Else, env) {
+				return true
+			}
+		}
+	}
+	return false
+}
+
+func (in *interp) usesScript(as []*Attr, env *Env) bool {
+	for _, a := range as {
+		switch a.Kind {
+		case AOnEvent:
+			return true
+		case ACond:
+			if in.usesScript(a.Then, env) || in.usesScript(a.Else, env) {
+				return true
+			}
+		}
+	}
+	return false
 }
